@@ -213,18 +213,22 @@ class _Annot:
     out = []
     for s in stmts:
       if s[0] == 'draw':
-        out.append(('draw', s[1], self.nparam))
-        self.nparam += 1
+        out.append(('draw', s[1], -1 if in_jit else self.nparam))
+        self.nparam += 0 if in_jit else 1
       elif s[0] == 'var':
         out.append(('var', s[1]))
       elif s[0] == 'sub':
+        # equal bodies of one child share a method, equal jit-ted bodies share one jit-ted method (one trace cache): a module
+        # that calls the same jit-ted method from several entry points
         lst = self.kids.setdefault(s[1], [])
-        lst.append(s[2])
-        out.append(('sub', s[1], len(lst) - 1))
+        if s[2] not in lst:
+          lst.append(s[2])
+        out.append(('sub', s[1], lst.index(s[2])))
       elif s[0] == 'jit':
         ann = self.annotate(s[1], in_jit=True)
-        self.jits.append(ann)
-        out.append(('jit', len(self.jits) - 1))
+        if ann not in self.jits:
+          self.jits.append(ann)
+        out.append(('jit', self.jits.index(ann)))
     return out
 
 
@@ -1790,6 +1794,23 @@ def gen_jit_history(rng):
   return {'kind': 'jit-history', 'sep': rng.random() < 0.5, 'seeds': seeds, 'bodies': bodies, 'order': order}
 
 
+def gen_jit_child_history(rng):
+  """Two entry points of one module call the SAME jit-ted method; in one of them a child scope has already drawn (outside the jit-ted
+  region) when the method is entered, while the module's own counters are the same: the trace of one entry must not serve the other."""
+  seeds = gen_seeds(rng)
+  present = [s[0] for s in seeds]
+  s_child = rng.choice(present + (['x'] if FALLBACK_LINEN in present else []))
+  child = rng.choice(['k', 'blk'])
+  jb = [['draw', rng.choice(present)] for _ in range(rng.randrange(0, 2))] + [['sub', child, [['draw', s_child]] * rng.randrange(1, 3)]]
+  pre = [['draw', rng.choice(present)] for _ in range(rng.randrange(0, 2))]
+  post = [['sub', child, [['draw', s_child]]]] if rng.random() < 0.5 else []
+  bodies = [pre + [['sub', child, [['draw', s_child]] * q]] * (1 if q else 0) + [['jit', jb]] + post for q in [0] + rng.sample([1, 2], rng.randrange(1, 3))]
+  order = list(range(len(bodies)))
+  rng.shuffle(order)
+  order += [rng.randrange(len(bodies)) for _ in range(rng.randrange(0, 2))]
+  return {'kind': 'jit-history', 'sep': rng.random() < 0.5, 'seeds': seeds, 'bodies': bodies, 'order': order}
+
+
 def probe_separator_count_nul(ctx):
   """Finding F17 on the real code, cheaply: with the separator on, the count 65537 (bytes 01 00 01) drawn in scope `a`
   has the same SHA-1 preimage as count 1 in a's child named "\\x01" (theorem separator_not_injective_beyond_65536).
@@ -2013,7 +2034,7 @@ def run(ctx):
     if label_draws(strip_vars(body), seeds) is None:
       ctx.count('linen_errors', 'InvalidRng')
     linen_cases.append((case, allow_jit))
-  jit_cases = [gen_jit_history(rng) for _ in range(8 if not thorough else 120)]
+  jit_cases = [gen_jit_history(rng) for _ in range(6 if not thorough else 120)] + [gen_jit_child_history(rng) for _ in range(5 if not thorough else 80)]
   core_cases = [
     {'kind': 'linen-ops', 'sep': rng.random() < 0.5, 'seeds': gen_seeds(rng), 'ops': gen_core_ops(rng, rng.randrange(4, 25))}
     for _ in range(120 if not thorough else 2000)
